@@ -348,6 +348,30 @@ def rule_e(ctx, ix):
         rrole |= {'world' for k in ks if k in ('Wi',)} | {'pixel' for k in ks if k in ('Pi',)}
     if not prole:
         raise AnalysisError('dependent_axes: the role of its axis parameter cannot be inferred')
+    # the index given to dependent_axes can be that of a pixel axis or of a world axis: it seeds the closure on both sides, each
+    # side whenever it is a valid index there - not "the world side only if it is no pixel index"
+    from .. import cond as _cd
+    dnode = funcs['dependent_axes']
+    axis_p = mr.params('dependent_axes')[1]
+    sizes = {}
+    for st in walk_no_nested(dnode):
+        if isinstance(st, ast.Assign) and len(st.targets) == 1 and isinstance(st.targets[0], ast.Name) and isinstance(st.value, ast.Call) \
+                and unparse(st.value.func) in ('np.zeros', 'np.ones', 'np.full') and st.value.args:
+            sizes[st.targets[0].id] = unparse(st.value.args[0])
+    seeds = [st for st in walk_no_nested(dnode) if isinstance(st, ast.Assign) and isinstance(st.targets[0], ast.Subscript)
+             and isinstance(st.targets[0].value, ast.Name) and unparse(st.targets[0].slice) == axis_p
+             and mr.env['dependent_axes'].get(st.targets[0].value.id, set()) & {'Pv', 'Wv'}]
+    if len(seeds) >= 2:
+        for st in seeds:
+            v = st.targets[0].value.id
+            others = {sz for k, sz in sizes.items() if k != v and sz != sizes.get(v)}
+            pc = _cd.path_condition(dnode, st, expand=True) or ('const', True)
+            foreign = sorted(a for a in _cd.atoms(pc) if any(o in a.split('|')[1:] for o in others))
+            ctx.ob(R, '%s:dependent_axes seed %s' % (HELPERS, v), 'the index seeds this side of the closure whenever it is a valid index on this side', not foreign,
+                   detail='dependent_axes seeds `%s[%s]` only under `%s`, a condition on the size of the OTHER kind of axis: for a '
+                          'transformation that permutes axes (world axis i does not depend on pixel axis i) the closure starts from one '
+                          'side only, a needed pixel axis is treated as independent and replaced by a constant' % (v, axis_p, pc),
+                   where='%s:%d' % (mod.relpath, getattr(st, '_orig_lineno', st.lineno)))
     nsites = 0
     for construct, node, m in _enclosing_funcs(ix):
         if m.name == HELPERS:
@@ -408,6 +432,46 @@ def rule_e(ctx, ix):
                        where='%s:%d' % (m.relpath, c.lineno))
     if nsites < 5:
         raise AnalysisError('C15.e: only %d call sites of dependent_axes found' % nsites)
+    # (iii') readers of the dependence table outside the helper module (a local shortcut instead of dependent_axes): the index
+    # they select a row / column with must be of that kind at that place
+    for construct, node, m in _enclosing_funcs(ix):
+        if m.name in (HELPERS, 'glue.core.coordinates') or '.tests' in m.name:
+            continue
+        if not any(isinstance(x, ast.Attribute) and x.attr == 'axis_correlation_matrix' for x in ast.walk(node)):
+            continue
+        mr2 = ModuleRoles({node.name: node})
+        uses = getattr(mr2, 'index_uses', {}).get(node.name, [])
+        if not uses:
+            raise AnalysisError('C15.e: %s reads the dependence table in a way that is not recognised (new reader)' % construct)
+        pm2 = parent_map(node)
+        for sel, kind in uses:
+            used = 'world' if kind == 'Wi' else 'pixel'
+            txt = unparse(sel)
+            actual = None
+            if (construct, txt) in SITE_ROLES:
+                actual = SITE_ROLES[(construct, txt)][0]
+            elif isinstance(sel, ast.Attribute) and sel.attr == 'axis':
+                st_ = sel
+                while st_ is not None and not isinstance(st_, ast.stmt):
+                    st_ = pm2.get(id(st_))
+                pc_ = _cd.path_condition(node, st_, expand=False) if st_ is not None else None
+                for a_ in sorted(_cd.atoms(pc_)) if pc_ is not None else ():
+                    try:
+                        pos = _cd.implies(pc_, _cd.T(a_))
+                    except ValueError:
+                        continue
+                    if pos and (a_.endswith('.world') or 'world_component_ids' in a_):
+                        actual = {'world'}
+                    elif pos and 'pixel_component_ids' in a_:
+                        actual = {'pixel'}
+            if actual is None:
+                raise AnalysisError('C15.e: the kind of the index `%s` with which %s reads the dependence table is not known (new reader)' % (txt, construct))
+            ctx.ob(R, '%s table[%s]' % (construct, txt), 'the dependence table is read with an index of the kind of that dimension', actual <= {used},
+                   detail='%s selects a %s of the dependence table with `%s`, which is the index of a %s axis there (rows are world axes, '
+                          'columns are pixel axes): for coordinates whose dependence pattern is not symmetric the wrong axes are '
+                          'reported as the ones the coordinate depends on' % (construct, 'row' if used == 'world' else 'column', txt,
+                                                                            '/'.join(sorted(actual))),
+                   where='%s:%d' % (m.relpath, getattr(sel, 'lineno', node.lineno)))
     # (iv) forward table read in the inverse direction
     for fname, dep_kind, direct_ok, what in (('pixel2world_single_axis', 'Pv', True, 'pixel inputs a world axis depends on: its row of the table'),
                                              ('world2pixel_single_axis', 'Wv', False, 'world inputs a pixel axis depends on: not its column '
